@@ -531,7 +531,12 @@ def gen_op(rng, st):
         ofmt = rng.choice(FORMATS)
         ops.append({'op': 'unrelated_write', 'spec': gen_spec(rng, ofmt),
                     'file': 'u%d.%s' % (cid, ofmt)})
-    ops.append({'op': 'rewrite', 'cid': cid, 'from': rng.choice(['ack', 'path'])})
+    rw = {'op': 'rewrite', 'cid': cid, 'from': rng.choice(['ack', 'path'])}
+    if rng.random() < 0.3:
+        # between reading the file back and writing it again, another file of the
+        # same format but another grid is opened (named format) or probed (no format)
+        rw['between'] = {'spec': gen_spec(rng, fmt), 'how': rng.choice(['open', 'probe', 'open'])}
+    ops.append(rw)
     ops.append({'op': 'stubread', 'cid': cid, 'hdr_nz0': rng.random() < 0.5})
     st.queue = ops
     return st.queue.pop(0)
@@ -540,6 +545,18 @@ def gen_op(rng, st):
 def _hist(rng):
     return rng.choice([{'op': 'clock_jump', 'seconds': rng.choice([1, 3600, 86400, 31622400, -7200])},
                        {'op': 'collect'}])
+
+
+def _ref_encode(fmt, m):
+    if fmt == 'uamiv':
+        return camx.encode_gridded(m)[0]
+    if fmt == 'lateral_boundary':
+        return camx.encode_boundary(m)[0]
+    if fmt == 'landuse':
+        return camx.encode_landuse(m)[0]
+    if fmt == 'cloud_rain':
+        return camx.encode_cloud_rain(m)[0]
+    return camx.encode_met(m)[0]
 
 
 def _raise(st, prop, invariant, detail, sig):
@@ -748,6 +765,22 @@ def apply(st, op):
         st.stats['evaluations'] += 1
         try:
             g = library_read(src, fmt, spec)
+            bt = op.get('between')
+            if bt:
+                try:
+                    osp = bt['spec']
+                    ob = _ref_encode(fmt, truth_of(osp)['model'])
+                    op3 = wr['path'] + '.other'
+                    with open(op3, 'wb') as fh:
+                        fh.write(ob)
+                    if bt['how'] == 'probe':
+                        import PseudoNetCDF as pnc
+                        st.wr.setdefault('unrelated', []).append(pnc.pncopen(op3))
+                    else:
+                        st.wr.setdefault('unrelated', []).append(library_read(op3, fmt, osp))
+                    w.fault('other_file_opened_between_read_and_rewrite')
+                except BaseException as e:
+                    obs['between'] = 'raised ' + type(e).__name__
             p2 = wr['path'] + '.rewrite'
             h2 = library_write(g, p2, fmt, spec)
         except BaseException as e:
@@ -776,6 +809,10 @@ def apply(st, op):
                    're-writing the re-read %s file (%s) gives %d bytes, first output %d bytes; '
                    'first difference at byte %d' % (fmt, _desc(spec), len(b2_ack), len(b1), first),
                    {'format': fmt})
+        if b2 != b1:
+            # every file a writer emits must conform to the layout and decode to what
+            # was written: the re-written file is judged like the first output
+            _judge_image(st, wr, p2, 'rewrite')
     elif o == 'stubread':
         wr = st.wr.get(op['cid'])
         if wr is None:
@@ -783,20 +820,11 @@ def apply(st, op):
         fmt, spec, truth = wr['fmt'], wr['spec'], wr['truth']
         # ---- C09 (b): reference encoder -> library reader
         m = truth['model']
-        if fmt == 'uamiv':
-            if op.get('hdr_nz0') and m['nz'] == 1:
-                # a surface file whose grid header says 0 layers (older producers)
-                m = dict(m, hdr_nz=0)
-                w.probe('gridded_header_with_zero_layers')
-            buf, _ = camx.encode_gridded(m)
-        elif fmt == 'lateral_boundary':
-            buf, _ = camx.encode_boundary(m)
-        elif fmt == 'landuse':
-            buf, _ = camx.encode_landuse(m)
-        elif fmt == 'cloud_rain':
-            buf, _ = camx.encode_cloud_rain(m)
-        else:
-            buf, _ = camx.encode_met(m)
+        if fmt == 'uamiv' and op.get('hdr_nz0') and m['nz'] == 1:
+            # a surface file whose grid header says 0 layers (older producers)
+            m = dict(m, hdr_nz=0)
+            w.probe('gridded_header_with_zero_layers')
+        buf = _ref_encode(fmt, m)
         p3 = wr['path'] + '.stub'
         with open(p3, 'wb') as fh:
             fh.write(buf)
